@@ -38,7 +38,24 @@ fn level(s: &str) -> Consistency {
     }
 }
 
-fn layout_map(layout: &Value) -> BTreeMap<Cow<'static, str>, Nodes> {
+/// Where the local node sits: the member lists are rotated left by `rot` (so the local node, index 1 of data centre 1,
+/// is not the first entry of its list), and with `local_last` the local data centre's name sorts after all others.
+/// The specification's postcondition does not depend on either; the code's cursors do.
+#[derive(Clone, Copy)]
+struct Variant {
+    rot: usize,
+    local_last: bool,
+}
+
+fn dc_name(d: usize, v: Variant) -> String {
+    if d == 0 && v.local_last {
+        "dcz".to_string()
+    } else {
+        format!("dc{}", d + 1)
+    }
+}
+
+fn layout_map(layout: &Value, v: Variant) -> BTreeMap<Cow<'static, str>, Nodes> {
     // layout: per data centre the list of member indexes (empty = data centre absent)
     let mut m = BTreeMap::new();
     for (d, members) in layout.as_array().unwrap().iter().enumerate() {
@@ -46,31 +63,34 @@ fn layout_map(layout: &Value) -> BTreeMap<Cow<'static, str>, Nodes> {
         if members.is_empty() {
             continue;
         }
+        let mut list: Vec<u64> = members.iter().map(|i| i.as_u64().unwrap()).collect();
+        let r = v.rot % list.len();
+        list.rotate_left(r);
         let mut nodes = Nodes::new();
-        for i in members {
-            nodes.push(addr(d as u64 + 1, i.as_u64().unwrap()));
+        for i in list {
+            nodes.push(addr(d as u64 + 1, i));
         }
-        m.insert(Cow::Owned(format!("dc{}", d + 1)), nodes);
+        m.insert(Cow::Owned(dc_name(d, v)), nodes);
     }
     m
 }
 
 /// Runs one history on a fresh actor; returns (event key, event, history index) per selection.
-async fn run_history(h: Value) -> Vec<(String, Value)> {
-    let handle = start_node_selector(addr(1, 1), Cow::Borrowed("dc1"), DCAwareSelector::default()).await;
+async fn run_history(h: Value, v: Variant) -> Vec<(String, Value)> {
+    let handle = start_node_selector(addr(1, 1), Cow::Owned(dc_name(0, v)), DCAwareSelector::default()).await;
     let mut layout = Value::Null;
     let mut out = vec![];
     for step in h["hist"].as_array().unwrap() {
         match step["op"].as_str().unwrap() {
             "set" => {
                 layout = step["layout"].clone();
-                set_nodes(&handle, layout_map(&layout)).await;
+                set_nodes(&handle, layout_map(&layout, v)).await;
             },
             "wait" => tokio::time::sleep(Duration::from_millis(2100)).await,
             "select" => {
                 let lv = step["level"].as_str().unwrap();
                 let ev = match handle.get_nodes(level(lv)).await {
-                    Ok(nodes) => json!({"layout": layout, "level": lv, "ok": true,
+                    Ok(nodes) => json!({"layout": layout, "level": lv, "ok": true, "variant": [v.rot, v.local_last],
                                         "result": nodes.iter().map(node_of).collect::<Vec<_>>()}),
                     Err(ConsistencyError::NotEnoughNodes { live, required }) => {
                         json!({"layout": layout, "level": lv, "ok": false, "result": [], "live": live, "required": required})
@@ -100,13 +120,24 @@ pub async fn replay() {
     let mut events: BTreeMap<String, (Value, u64, Value)> = BTreeMap::new();
     let mut selections = 0u64;
     let mut set = tokio::task::JoinSet::new();
-    let mut it = hists.into_iter();
+    // every history with the local node in four different positions
+    let variants = [Variant { rot: 0, local_last: false }, Variant { rot: 1, local_last: true },
+                    Variant { rot: 2, local_last: false }, Variant { rot: 3, local_last: true }];
+    let with_wait = |h: &Value| h["hist"].as_array().unwrap().iter().any(|s| s["op"] == "wait");
+    let jobs: Vec<(Value, Variant)> = hists
+        .into_iter()
+        .flat_map(|h| {
+            let n = if with_wait(&h) { 1 } else { variants.len() };
+            variants[..n].iter().map(move |v| (h.clone(), *v)).collect::<Vec<_>>()
+        })
+        .collect();
+    let mut it = jobs.into_iter();
     loop {
         while set.len() < conc {
             match it.next() {
-                Some(h) => {
+                Some((h, v)) => {
                     let hc = h.clone();
-                    set.spawn(async move { (hc, run_history(h).await) });
+                    set.spawn(async move { (hc, run_history(h, v).await) });
                 },
                 None => break,
             }
